@@ -57,6 +57,10 @@ type Scenario struct {
 	//      (Set widens min/max beyond the layout when given more)
 	//   4  the zero value &geom.Bounds{}
 	//   5  NewBounds(layout of G).SetCoords(first half of BArgs, second half)
+	// Shared, when set, is ONE part object that both owners push into their
+	// objects (mutation "pushs"): Push copies, so the two objects and the part
+	// stay independent of one another.
+	Shared *mgeom.Geom `json:"shared,omitempty"`
 	// Pre is applied to the object before anything is cloned: a clone is then
 	// taken of an object with a history (moved end offsets, pushes, spare
 	// capacity left by appends, a negative SRID, ...).
@@ -98,7 +102,7 @@ func (prop) Describe() core.Description {
 		RealComponents: []string{"go-geom root package: Clone of all cloneable types (derived.gen.go), FlatCoords/Ends/Endss, Push, Reverse, TransformInPlace, SetCoords, SetSRID, Swap, Coord.Set, Bounds.Set/SetCoords/Extend", "Go race detector"},
 		StubComponents: []string{"the two owners (seeded mutation programs and their interleaving)"},
 		FaultKinds:     []string{"mut:ord", "mut:end", "mut:sameend", "mut:push", "mut:reverse", "mut:transform", "mut:setcoords", "mut:setsrid", "mut:swap", "mut:cidx", "mut:cset", "mut:bset", "mut:bsetcoords", "mut:bextend"},
-		Probes:         []string{"probe:multipolygon-endss-write", "probe:empty-object", "probe:both-owners-mutated-in-place", "probe:owner1-first", "probe:alternating", "probe:reserved-capacity", "probe:variant-0", "probe:variant-1", "probe:variant-2", "probe:variant-3", "probe:bounds-dims!=layout-stride-or-promoted", "probe:cloned-after-a-history", "probe:nothing-observed-until-the-end", "probe:write-through-slice-from-before-clone", "probe:negative-srid"},
+		Probes:         []string{"probe:multipolygon-endss-write", "probe:empty-object", "probe:both-owners-mutated-in-place", "probe:owner1-first", "probe:alternating", "probe:reserved-capacity", "probe:variant-0", "probe:variant-1", "probe:variant-2", "probe:variant-3", "probe:bounds-dims!=layout-stride-or-promoted", "probe:cloned-after-a-history", "probe:nothing-observed-until-the-end", "probe:write-through-slice-from-before-clone", "probe:negative-srid", "probe:one-part-object-pushed-by-both-owners"},
 	}
 }
 
@@ -162,6 +166,9 @@ func (prop) Decode(raw []byte) (any, error) {
 	}
 	if s.Variant != 0 && !isGeomKind(s.Kind) {
 		return nil, fmt.Errorf("variants are for geometries")
+	}
+	if s.Shared != nil && (!isGeomKind(s.Kind) || partOf[s.Kind] == "" || s.Shared.T != partOf[s.Kind] || s.Shared.L != s.G.L) {
+		return nil, fmt.Errorf("bad shared part")
 	}
 	if len(s.Pre) > 16 || (len(s.Pre) > 0 || s.Quiet || s.OldWrite != nil) && !isGeomKind(s.Kind) {
 		return nil, fmt.Errorf("bad pre-history")
@@ -323,6 +330,27 @@ func (prop) Generate(r *prng.Rand, phase string) any {
 		for i := range s.Prog[w] {
 			if s.Prog[w][i].K == "setsrid" {
 				s.Prog[w][i].I = []int{-1, 0, 1, 4326, 1 << 31, -32768}[r.Intn(6)]
+			}
+		}
+	}
+	if isGeomKind(s.Kind) && partOf[s.Kind] != "" && s.G.L != 0 && r.Chance(0.3) {
+		// one part object pushed by both owners: the first push of each
+		// program that has one (or a push put in front) uses it
+		s.Shared = cfg.Gen(r, partOf[s.Kind], s.G.L, 0)
+		if s.Shared.NumCoords() == 0 && r.Chance(0.8) {
+			s.Shared = cfg.Gen(r, partOf[s.Kind], s.G.L, 0)
+		}
+		for w := 0; w < 2; w++ {
+			done := false
+			for i := range s.Prog[w] {
+				if s.Prog[w][i].K == "push" {
+					s.Prog[w][i] = Mut{K: "pushs"}
+					done = true
+					break
+				}
+			}
+			if !done {
+				s.Prog[w] = append([]Mut{{K: "pushs"}}, s.Prog[w]...)
 			}
 		}
 	}
@@ -571,8 +599,15 @@ func (a *raw) apply(m Mut, x **raw) bool {
 		} else {
 			a.Endss[row][col] = v
 		}
-	case "push":
-		p := rawOf(m.Part.Clone())
+	case "push", "pushs":
+		part := m.Part
+		if m.K == "pushs" {
+			part = sharedModel
+		}
+		if part == nil {
+			return false
+		}
+		p := rawOf(part.Clone())
 		off := len(a.Flat)
 		switch a.T {
 		case mgeom.Pg, mgeom.MLS:
@@ -639,6 +674,13 @@ type owner struct {
 	x geom.T // private third object for swap
 }
 
+// sharedModel / sharedPart: the one part object both owners push (set by
+// Execute for the duration of a scenario; read-only while the owners run).
+var (
+	sharedModel *mgeom.Geom
+	sharedPart  geom.T
+)
+
 func applyLib(o *owner, m Mut, model *raw) (panicked string) {
 	return core.Guard(func() {
 		g := o.g
@@ -657,10 +699,16 @@ func applyLib(o *owner, m Mut, model *raw) (panicked string) {
 			} else {
 				g.Endss()[row][col] = model.Endss[row][col]
 			}
-		case "push":
-			p, err := mgeom.Build(m.Part.Clone())
-			if err != nil {
-				panic(err)
+		case "push", "pushs":
+			var p geom.T
+			var err error
+			if m.K == "pushs" {
+				p = sharedPart
+			} else {
+				p, err = mgeom.Build(m.Part.Clone())
+				if err != nil {
+					panic(err)
+				}
 			}
 			switch g := g.(type) {
 			case *geom.Polygon:
@@ -782,6 +830,17 @@ func (prop) Execute(scAny any, phase string, log *core.Log) core.Result {
 			rs.Reserve(s.Reserve)
 			res.Count("probe:reserved-capacity", 1)
 		}
+	}
+	sharedModel, sharedPart = nil, nil
+	if s.Shared != nil {
+		sharedModel = s.Shared.Clone().Norm()
+		sp, err := mgeom.Build(sharedModel.Clone())
+		if err != nil {
+			res.Fail("build", "build:"+sharedModel.T, "building the shared part %s failed: %v", sharedModel, err)
+			return res
+		}
+		sharedPart = sp
+		res.Count("probe:one-part-object-pushed-by-both-owners", 1)
 	}
 	// the object's history before it is cloned
 	rawG := rawOf(m.Clone())
@@ -994,6 +1053,12 @@ func (prop) Execute(scAny any, phase string, log *core.Log) core.Result {
 			}
 		}
 	}
+	if sharedPart != nil {
+		if d := observeRaw(sharedPart).diff(rawOf(sharedModel.Clone())); d != "" {
+			res.Fail("mutation-visible-through-other", "mutation-visible-through-pushed-part:"+s.Kind, "the part object that both owners pushed has changed: %s", d)
+			return res
+		}
+	}
 	if alt >= 2 {
 		res.Count("probe:alternating", 1)
 	}
@@ -1070,6 +1135,12 @@ func raceGeom(s *Scenario, g, c geom.T, r0, r1 *raw, log *core.Log) core.Result 
 			return res
 		}
 		log.Addf("owner %d final state matches its model (%d ordinates)", w, len(models[w].Flat))
+	}
+	if sharedPart != nil {
+		if d := observeRaw(sharedPart).diff(rawOf(sharedModel.Clone())); d != "" {
+			res.Fail("mutation-visible-through-other", "mutation-visible-through-pushed-part:"+s.Kind, "the part object that both owners pushed has changed: %s", d)
+			return res
+		}
 	}
 	res.Nontrivial = mutated[0] && mutated[1]
 	if res.Nontrivial {
